@@ -32,6 +32,8 @@ pub enum Op {
     AdfNodeList,
     /// serde JSON round trip of a whole `Adf` holding the store + `Adf::fix_import`
     AdfSerde,
+    /// `Bdd::fix_import()` on the live store (the repair step must be harmless at any time)
+    FixImport,
 }
 
 #[derive(Clone, Debug, Serialize, Deserialize, PartialEq, Eq, Hash)]
@@ -61,6 +63,7 @@ pub fn op_strategy(rematerialise: bool) -> BoxedStrategy<Op> {
             1 => Just(Op::Rebuild),
             1 => Just(Op::AdfNodeList),
             1 => Just(Op::AdfSerde),
+            1 => Just(Op::FixImport),
         ]
         .boxed()
     } else {
@@ -301,6 +304,12 @@ impl Shadow {
             }
             Op::Rebuild => {
                 self.bdd = Bdd::from(self.bdd.nodes.clone());
+                info.rematerialised = true;
+                self.after_rematerialise(&before_nodes)?;
+                return Ok(info);
+            }
+            Op::FixImport => {
+                self.bdd.fix_import();
                 info.rematerialised = true;
                 self.after_rematerialise(&before_nodes)?;
                 return Ok(info);
